@@ -209,7 +209,17 @@ def build_items(ctx, quick):
             lines = s["text"].split("\n")
             txt = "\n".join("// c%d\n\n%s" % (k, ln) if ln.strip() else ln for k, ln in enumerate(lines))
             big.append(dict(id=s["id"] + ":trivia", text=txt, plain=s["text"], mouts=None, decorated=True))
-    return und + fixture_items() + big + dec[:cap], len(und), len(dec)
+    # one instance beyond 512 trivia entries in a single text (185 of the n = 130 repetition's
+    # lines, a comment and a blank line in front of each: ~555 entries); first, so that it is
+    # judged by a shard from the start
+    huge = []
+    for s in scale.items(ctx, quick, families=("rep_call1",), max_n=130):
+        if s["n"] == 130 and "\n" in s["text"]:
+            lines = [ln for ln in s["text"].split("\n") if ln.strip()]
+            plain = "\n".join(lines + lines[:55])
+            txt = "\n".join("// c%d\n\n%s" % (k, ln) if ln.strip() else ln for k, ln in enumerate(plain.split("\n")))
+            huge.append(dict(id=s["id"] + ":x185:trivia", text=txt, plain=plain, mouts=None, decorated=True))
+    return huge[:1] + und + fixture_items() + big + dec[:cap], len(und) + len(huge[:1]), len(dec)
 
 
 def run(ctx, which=None):
